@@ -111,10 +111,18 @@ fn one(p: usize, c: usize, n: usize, ints: &[usize], resets: &[usize], cfgs: &[M
             .build()
             .expect("config");
         let res = config.run().expect("parses");
+        // a configuration can be run any number of times: the second run must report the same
+        if n % 8 == 0 {
+            let again = config.run().expect("parses");
+            if again.machine != res.machine || again.emulated_cycles != res.emulated_cycles {
+                panic!("VERIF-SECOND-RUN-DIFFERS");
+            }
+        }
         (res.machine.clone(), res.emulated_cycles)
     });
     let (m, cycles) = match r {
         Ok(v) => v,
+        Err(pi) if pi.msg.contains("VERIF-SECOND-RUN-DIFFERS") => return Some(("second-run-differs".into(), format!("[{}] running the same RunnerConfig a second time gives another final machine or cycle count", PROGS[p].0))),
         Err(pi) => return Some((format!("panic/{}", pi.file()), format!("RunnerConfig::run panicked at {}: {}", pi.site(), pi.msg))),
     };
     let (em, ecycles) = ref_run(PROGS[p].1, &cfgs[c], n, ints, resets);
@@ -137,6 +145,113 @@ fn one(p: usize, c: usize, n: usize, ints: &[usize], resets: &[usize], cfgs: &[M
         ));
     }
     None
+}
+
+fn apply_config(m: &mut Machine, cfg: &MachineConfig) {
+    m.set_input_fc(cfg.input_fc);
+    m.set_input_fd(cfg.input_fd);
+    m.set_input_fe(cfg.input_fe);
+    m.set_input_ff(cfg.input_ff);
+    m.set_digital_input1(cfg.digital_input1);
+    m.set_temp(cfg.temp);
+    m.set_jumper1(cfg.jumper1);
+    m.set_jumper2(cfg.jumper2);
+    m.set_analog_input1(cfg.analog_input1);
+    m.set_analog_input2(cfg.analog_input2);
+    m.set_universal_input_output1(cfg.universal_input_output1);
+    m.set_universal_input_output2(cfg.universal_input_output2);
+    m.set_universal_input_output3(cfg.universal_input_output3);
+}
+
+/// "A machine created with a configuration" is the machine one gets from the setters: every field on
+/// its own (two values each), every pair of fields, and the mixed configurations, through
+/// Machine::new and Machine::new_with_program (with every program), compared as whole values and
+/// through the reads a program can make.
+fn config_equivalence() -> (u64, Vec<(String, String, String)>) {
+    let d = MachineConfig::default();
+    let singles: Vec<(&str, MachineConfig)> = vec![
+        ("digital_input1", MachineConfig { digital_input1: 0xA7, ..d.clone() }),
+        ("temp", MachineConfig { temp: 1.75, ..d.clone() }),
+        ("jumper1", MachineConfig { jumper1: true, ..d.clone() }),
+        ("jumper2", MachineConfig { jumper2: true, ..d.clone() }),
+        ("analog_input1", MachineConfig { analog_input1: 3.25, ..d.clone() }),
+        ("analog_input2", MachineConfig { analog_input2: 0.5, ..d.clone() }),
+        ("universal_input_output1", MachineConfig { universal_input_output1: true, ..d.clone() }),
+        ("universal_input_output2", MachineConfig { universal_input_output2: true, ..d.clone() }),
+        ("universal_input_output3", MachineConfig { universal_input_output3: true, ..d.clone() }),
+        ("input_fc", MachineConfig { input_fc: 0x1C, ..d.clone() }),
+        ("input_fd", MachineConfig { input_fd: 0x2D, ..d.clone() }),
+        ("input_fe", MachineConfig { input_fe: 0x3E, ..d.clone() }),
+        ("input_ff", MachineConfig { input_ff: 0x4F, ..d.clone() }),
+        ("temp=NaN", MachineConfig { temp: f32::NAN, ..d.clone() }),
+        ("analog_input1=9", MachineConfig { analog_input1: 9.0, ..d.clone() }),
+        ("analog_input2=-1", MachineConfig { analog_input2: -1.0, ..d.clone() }),
+    ];
+    let merge = |a: &MachineConfig, b: &MachineConfig| -> MachineConfig {
+        let pick_u = |x: u8, y: u8, dv: u8| if x != dv { x } else { y };
+        let pick_f = |x: f32, y: f32, dv: f32| if x.to_bits() != dv.to_bits() { x } else { y };
+        MachineConfig {
+            digital_input1: pick_u(a.digital_input1, b.digital_input1, d.digital_input1),
+            temp: pick_f(a.temp, b.temp, d.temp),
+            jumper1: a.jumper1 || b.jumper1,
+            jumper2: a.jumper2 || b.jumper2,
+            analog_input1: pick_f(a.analog_input1, b.analog_input1, d.analog_input1),
+            analog_input2: pick_f(a.analog_input2, b.analog_input2, d.analog_input2),
+            universal_input_output1: a.universal_input_output1 || b.universal_input_output1,
+            universal_input_output2: a.universal_input_output2 || b.universal_input_output2,
+            universal_input_output3: a.universal_input_output3 || b.universal_input_output3,
+            input_fc: pick_u(a.input_fc, b.input_fc, d.input_fc),
+            input_fd: pick_u(a.input_fd, b.input_fd, d.input_fd),
+            input_fe: pick_u(a.input_fe, b.input_fe, d.input_fe),
+            input_ff: pick_u(a.input_ff, b.input_ff, d.input_ff),
+        }
+    };
+    let mut cfgs: Vec<(String, MachineConfig)> = singles.iter().map(|(n, c)| (n.to_string(), c.clone())).collect();
+    for i in 0..singles.len() {
+        for j in i + 1..singles.len() {
+            cfgs.push((format!("{}+{}", singles[i].0, singles[j].0), merge(&singles[i].1, &singles[j].1)));
+        }
+    }
+    for (i, c) in configs().into_iter().enumerate() {
+        cfgs.push((format!("mixed#{}", i), c));
+    }
+    let progs: Vec<_> = PROGS.iter().map(|(_, src)| Translator::compile(&AsmParser::parse(src).expect("program parses"))).collect();
+    let mut n = 0u64;
+    let mut bad = vec![];
+    let reads = |m: &Machine| -> Vec<u8> { (0xF0..=0xFFu8).map(|a| m.bus().read(a)).collect() };
+    for (name, cfg) in &cfgs {
+        let r = mc::catch(|| {
+            let mut out = vec![];
+            let a = Machine::new(cfg.clone());
+            let mut b = Machine::new(MachineConfig::default());
+            apply_config(&mut b, cfg);
+            if a != b || reads(&a) != reads(&b) {
+                out.push(format!("Machine::new with {} differs from a default machine + setters: reads of 0xF0-0xFF {:02x?} vs {:02x?}", name, reads(&a), reads(&b)));
+            }
+            for (pi, bc) in progs.iter().enumerate() {
+                let a = Machine::new_with_program(cfg.clone(), bc.clone());
+                let mut b = Machine::new(MachineConfig::default());
+                b.load(bc.clone());
+                apply_config(&mut b, cfg);
+                if a != b || reads(&a) != reads(&b) {
+                    out.push(format!("Machine::new_with_program({}, {}) differs from new + load + setters: reads of 0xF0-0xFF {:02x?} vs {:02x?}", name, PROGS[pi].0, reads(&a), reads(&b)));
+                    break;
+                }
+            }
+            out
+        });
+        n += 1 + progs.len() as u64;
+        match r {
+            Ok(out) => {
+                for w in out {
+                    bad.push(("config/constructor-differs-from-setters".to_string(), w, format!("config {}", name)));
+                }
+            }
+            Err(p) => bad.push((format!("panic/{}", p.file()), format!("constructing a machine with {} panicked at {}: {}", name, p.site(), p.msg), format!("config {}", name))),
+        }
+    }
+    bad.truncate(6);
+    (n, bad)
 }
 
 /// RunExpectations::verify over all subsets x match/mismatch.
@@ -643,6 +758,15 @@ pub fn run() {
             x.1.push((l, w));
         }
     }
+    let (ncfg, cbad) = config_equivalence();
+    for (k, w, l) in cbad {
+        let x = bad.entry(k).or_default();
+        x.0 += 1;
+        if x.1.len() < 3 {
+            x.1.push((l, w));
+        }
+    }
+    ctx.set("constructor_vs_setter_comparisons", ncfg);
     // ---- process level ----
     ctx.set("wall_library_level_s", (ctx.elapsed() * 10.0).round() / 10.0);
     let mut nproc = 0u64;
